@@ -1,3 +1,6 @@
+pub mod c02;
+pub mod c25;
+
 pub fn all() -> Vec<&'static dyn simcore::Property> {
-    vec![]
+    vec![&c02::C02, &c25::C25]
 }
